@@ -253,6 +253,9 @@ func rewardAlphabet() []Choice {
 		evB("award(k3,0)", chain.Event{Kind: "award", Who: 3, Amount: 0}),
 		txB("send(k3->pos module account,1000)", chain.TxSpec{Msg: "send_module", From: 3, Key: "pos", Amount: 1000}),
 		txB("send(k3->fee collector,1000)", chain.TxSpec{Msg: "send_module", From: 3, Key: "fee_collector", Amount: 1000}),
+		// awards queued in the block whose EndBlock completes the recipient's unstaking
+		Choice{Label: "dt=3s + award(k0,8)", Block: chain.Block{DT: 3 * time.Second, Events: []chain.Event{{Kind: "award", Who: 0, Amount: 8}}}},
+		Choice{Label: "dt=3s + [award(k0,8),award(k3,5)]", Block: chain.Block{DT: 3 * time.Second, Events: []chain.Event{{Kind: "award", Who: 0, Amount: 8}, {Kind: "award", Who: 3, Amount: 5}}}},
 		// a header without proposer address: nobody is the proposer of that block
 		Choice{Label: "prop=empty + send", Block: chain.Block{Proposer: -2, Events: []chain.Event{txE(chain.TxSpec{Msg: "send", From: 3, To: 2, Amount: 1})}}},
 		{Label: "prop=empty", Block: chain.Block{Proposer: -2}},
@@ -385,6 +388,8 @@ func lifecycleAlphabet() []Choice {
 		{Label: "dt=3s", Block: chain.Block{DT: 3 * time.Second}},
 		multiB("[unstake(k0),unstake(k1)] same time", txE(chain.TxSpec{Msg: "unstake", From: 0}), txE(chain.TxSpec{Msg: "unstake", From: 1})),
 		txB("unstake(k1)", chain.TxSpec{Msg: "unstake", From: 1}),
+		// governance moves the minimum stake while validators are staked / unstaking
+		txB("change(StakeMinimum=50min)", chain.TxSpec{Msg: "change_param", From: 4, Key: "pos/StakeMinimum", Val: mj(int64(50 * min))}),
 	}
 }
 
